@@ -380,6 +380,14 @@ const EVENT_BYTES: usize = 96;
 const K_REPLAY: usize = 2;
 const MODEL_CAP: usize = 3_000_000;
 
+fn has_alias_key(n: &Node) -> bool {
+    match &n.kind {
+        Kind::Seq { items, .. } => items.iter().any(has_alias_key),
+        Kind::Map { entries, .. } => entries.iter().any(|(k, v)| matches!(k.kind, Kind::Alias(_)) || has_alias_key(k) || has_alias_key(v)),
+        _ => false,
+    }
+}
+
 fn nested_anchor_depth(n: &Node) -> usize {
     fn go(n: &Node) -> usize {
         let own = if n.anchor.is_some() && n.is_collection() { 1 } else { 0 };
@@ -496,13 +504,20 @@ fn check_case(c: &Case) -> Outcome {
         None => lim.replay.saturating_add(16),
     };
     let counted_replayed = replayed.min(replay_cap);
-    let bound = C0 + K * (text.len() + EVENT_BYTES * raw_events) + K_REPLAY * EVENT_BYTES * counted_replayed;
+    // (an alias in key position: the replayed node is also captured as a key - its events once
+    // more plus a fingerprint that owns a copy of every scalar - "keys are captured as replayable
+    // nodes with a structural fingerprint"; libFuzzer artifact of a thorough sweep)
+    let k_replay = match &c.fam {
+        Fam::Doc { doc, .. } if has_alias_key(doc) => K_REPLAY + 2,
+        _ => K_REPLAY,
+    };
+    let bound = C0 + K * (text.len() + EVENT_BYTES * raw_events) + k_replay * EVENT_BYTES * counted_replayed;
     if std::env::var("C08_DEBUG").is_ok() {
         eprintln!("peak {peak} bound {bound} raw_events {raw_events} replayed {replayed} counted_replayed {counted_replayed} delivered {delivered} verdict {verdict:?}");
     }
     if peak > bound {
         return Outcome::Fail(format!(
-            "peak heap {peak} bytes exceeds {C0} + {K}*(input {} + {EVENT_BYTES}*{raw_events} raw events) + {K_REPLAY}*{EVENT_BYTES}*{counted_replayed} replayed events = {bound} ({:?}, {:?})",
+            "peak heap {peak} bytes exceeds {C0} + {K}*(input {} + {EVENT_BYTES}*{raw_events} raw events) + {k_replay}*{EVENT_BYTES}*{counted_replayed} replayed events = {bound} ({:?}, {:?})",
             text.len(),
             c.fam_label(),
             c.lim
